@@ -102,6 +102,53 @@ theorem c03_count (r₁ r₂ refT fd audT : Nat) (hT : 0 < refT) (hf : 0 < fd) :
   Nat.dvd_sub (c03_ceil r₂ refT fd audT hT hf).1 (c03_ceil r₁ refT fd audT hT hf).1
 
 
+/-- **The recipe accounts for the whole segment**: the part taken inside the loop plus the part after the wrap is
+exactly the segment's duration `stop − start` (so that `(end − start)/frameDuration` frames are requested, no more, no
+less), and the part inside the loop starts at the segment's offset from the loop start. -/
+theorem c03_recipe_total (refNr refStart refEnd refTotalDur refT : Nat) (r : Rep) (hT : 0 < refT)
+    (hf : 0 < r.constSampleDur) (hse : refStart ≤ refEnd) (hD : 0 < refTotalDur) :
+    (audioRecipe refNr refStart refEnd refTotalDur refT r).inEnd - (audioRecipe refNr refStart refEnd refTotalDur refT r).inStart
+        + (audioRecipe refNr refStart refEnd refTotalDur refT r).inEndAfterWrap
+      = (audioRecipe refNr refStart refEnd refTotalDur refT r).stop - (audioRecipe refNr refStart refEnd refTotalDur refT r).start ∧
+    (audioRecipe refNr refStart refEnd refTotalDur refT r).inStart ≤ (audioRecipe refNr refStart refEnd refTotalDur refT r).inEnd ∧
+    (audioRecipe refNr refStart refEnd refTotalDur refT r).start = audioTimeFromRef refStart refT r.constSampleDur r.T ∧
+    (audioRecipe refNr refStart refEnd refTotalDur refT r).stop = audioTimeFromRef refEnd refT r.constSampleDur r.T := by
+  have hws : refStart / refTotalDur * refTotalDur ≤ refStart := Nat.div_mul_le_self _ _
+  have hwe : refEnd / refTotalDur * refTotalDur ≤ refEnd := Nat.div_mul_le_self _ _
+  have m1 := c03_monotone _ _ refT r.constSampleDur r.T hT hf hws
+  have m2 := c03_monotone _ _ refT r.constSampleDur r.T hT hf hwe
+  have m3 := c03_monotone _ _ refT r.constSampleDur r.T hT hf hse
+  -- when the two ends lie in different loops, the start lies before the wrap point of the end
+  have m4 : audioTimeFromRef (refEnd / refTotalDur * refTotalDur) refT r.constSampleDur r.T >
+      audioTimeFromRef (refStart / refTotalDur * refTotalDur) refT r.constSampleDur r.T →
+      audioTimeFromRef refStart refT r.constSampleDur r.T ≤ audioTimeFromRef (refEnd / refTotalDur * refTotalDur) refT r.constSampleDur r.T := by
+    intro hgt
+    apply c03_monotone _ _ refT r.constSampleDur r.T hT hf
+    rcases Nat.lt_or_ge (refStart / refTotalDur) (refEnd / refTotalDur) with hq | hq
+    · have h1 : refStart < (refStart / refTotalDur + 1) * refTotalDur := by
+        have := Nat.div_add_mod refStart refTotalDur
+        have := Nat.mod_lt refStart hD
+        rw [Nat.add_mul, Nat.one_mul, Nat.mul_comm]; omega
+      have h2 : (refStart / refTotalDur + 1) * refTotalDur ≤ refEnd / refTotalDur * refTotalDur :=
+        Nat.mul_le_mul_right _ hq
+      omega
+    · exfalso
+      have hle : refEnd / refTotalDur * refTotalDur ≤ refStart / refTotalDur * refTotalDur := Nat.mul_le_mul_right _ hq
+      have := c03_monotone _ _ refT r.constSampleDur r.T hT hf hle
+      omega
+  unfold audioRecipe
+  simp only
+  generalize audioTimeFromRef refStart refT r.constSampleDur r.T = aS at *
+  generalize audioTimeFromRef refEnd refT r.constSampleDur r.T = aE at *
+  generalize audioTimeFromRef (refStart / refTotalDur * refTotalDur) refT r.constSampleDur r.T = wS at *
+  generalize audioTimeFromRef (refEnd / refTotalDur * refTotalDur) refT r.constSampleDur r.T = wE at *
+  by_cases h1 : wE > wS
+  · rw [if_pos h1]
+    by_cases h2 : aE < wE + r.constSampleDur
+    · rw [if_pos h2]; exact ⟨by show aE - wS - (aS - wS) + 0 = aE - aS; omega, by show aS - wS ≤ aE - wS; omega, rfl, rfl⟩
+    · rw [if_neg h2]; exact ⟨by show wE - wS - (aS - wS) + (aE - wE) = aE - aS; have := m4 h1; omega, by show aS - wS ≤ wE - wS; have := m4 h1; omega, rfl, rfl⟩
+  · rw [if_neg h1]; exact ⟨by show aS - wS + (aE - aS) - (aS - wS) + 0 = aE - aS; omega, by show aS - wS ≤ aS - wS + (aE - aS); omega, rfl, rfl⟩
+
 /-! ## The audio SegmentTimeline of the MPD -/
 
 /-- a `(t, d)` list in which every entry starts where the previous one ended, the first one at `t` -/
